@@ -134,6 +134,7 @@ def _run_property(prop, tier, seed, cfg, sdir, t0):
     obligations = []   # dicts: id, fn, unit, src, kind, status
     failures = []      # dicts from classify, + unit
     tool = []
+    pending_confirm = []   # obligations that failed in a reshaped function: reported under their own name once a concrete input confirms them
     trusted = []
     cmds = []
     smt_ms = 0.0
@@ -177,6 +178,8 @@ def _run_property(prop, tier, seed, cfg, sdir, t0):
         for ts in res0.get('tool_scoped', []):
             if prop in ts.get('tags', []):
                 tool.append('[%s] %s' % (unit, ts['msg']))
+                if ts.get('needs_input'):
+                    pending_confirm.append((unit, ts))
         failed_ids = {}
         for f in res0['failed']:
             failed_ids.setdefault(f['clause'], []).append(f)
@@ -322,6 +325,24 @@ def _run_property(prop, tier, seed, cfg, sdir, t0):
         ev['coverage']['undecided'] = und
         ev['coverage']['bounded_checks'] = [{'family': k, 'cases': v, 'failing': len([f for f in fmine if f.get('family') == k]), 'bounded': True} for k, v in fcases.items()]
         ev['coverage']['bounded_checks_bound'] = replay_run.BOUNDS
+        if fmine and pending_confirm:
+            # a named obligation failed (in a function whose shape changed) AND the real crate disagrees with the oracle on a concrete
+            # input: report the obligation, replay the input
+            unit_pc, ts = pending_confirm[0]
+            os.makedirs(os.path.join(VERIF, 'replays'), exist_ok=True)
+            f0 = fmine[0]
+            path = os.path.join(VERIF, 'replays', '%s-%s.json' % (prop, re.sub(r'[^\w.]+', '_', ts['clause'])))
+            with open(path, 'w') as fh:
+                json.dump({'property': prop, 'failed_obligation': ts['clause'], 'function': ts.get('fn'), 'unit': unit_pc,
+                           'verifier_messages': [ts.get('message', '')], 'verifier_output': ts.get('rendered', ''),
+                           'note': ts['msg'], 'failing_input': f0['input'], 'observed': f0['observed'], 'expected': f0['expected'],
+                           'family': f0.get('family'), 'all_failing_cases': fmine[:10],
+                           'other_failed_obligations': [x[1]['clause'] for x in pending_confirm[1:20]],
+                           'replay_note': 'concrete input run on the real crate (replay/), bound: ' + replay_run.BOUNDS}, fh, indent=1)
+            print('VIOLATION property=%s replay=%s obligation=%s (failed obligation confirmed by a concrete failing input on the real code)' % (prop, path, ts['clause']))
+            ev['violations'] = 1
+            write_evidence(prop, ev)
+            return 1
         if fmine:
             for t in und[:6]:
                 print('UNDECIDED(deductive) property=%s %s' % (prop, t[:300]))
